@@ -242,16 +242,16 @@ class Real:
             with mg as entered:
                 if entered is not mg:
                     return {'exc': 'EnterReturnedOtherObject'}
-            return {'ok': None}
+            return {'ok': {'exit': False}}
         app = app_exception(how)
         try:
             with mg:
                 raise app
         except BaseException as e:  # noqa  (KeyboardInterrupt / SystemExit / GeneratorExit are in the pool)
             if e is app:
-                return {'ok': None}
+                return {'ok': {'exit': True}}           # __exit__ returned a false value: the exception propagates
             return common.exc_json(e)
-        return {'exc': 'ApplicationExceptionSwallowed'}
+        return {'ok': {'exit': False}}                  # swallowed (the model says it propagates)
 
     def step(self, op):
         import pywbem
@@ -1112,6 +1112,9 @@ class Gen:
 
 def model_op(op):
     """the part of a concrete op the model receives"""
+    if op['op'] == 'removeAll' and op.get('exit'):
+        how = op['exit']
+        return {'op': 'exitCtx', 'm': op['m'], 'exc': None if how in (True, 'normal') else EXIT_EXCS.index(how)}
     return {k: v for k, v in op.items() if k not in ('rawurl', 'restart', 'exit', 'srcns', 'ql')}
 
 
